@@ -23,9 +23,25 @@ def _undetermined(m):
     return m.startswith("nondet") or m.startswith("too-big")
 
 
+def _real_cap(ctx, lines):
+    """black-box build (overlay fallback): the queue runs with the `in` capacity that New gives it; the harness has
+    measured it and the model is told that capacity instead of the scripted one"""
+    cap = ctx.extra.get("forced_in_capacity_measured")
+    if not cap:
+        return lines
+    out = []
+    for l in lines:
+        w = l.split(" ")
+        if w[0] == "new" and len(w) >= 4:
+            w[3] = str(cap)
+            l = " ".join(w)
+        out.append(l)
+    return out
+
+
 def _annotate(ctx, lines, truncate):
     """attach the model's prediction to every line; with truncate, cut each history at its first undetermined line"""
-    lines = [_strip(l) for l in lines]
+    lines = _real_cap(ctx, [_strip(l) for l in lines])
     mo = ctx.run_model("drv_c15", lines)
     if mo is None:
         return lines
@@ -90,7 +106,7 @@ def _install(ctx):
         # model allows several observables accepts any of them
         if area != "forced":
             return orig_mismatch(area, driver, name, hist, canon, extra_env)
-        plain = [_strip(l) for l in hist]
+        plain = _real_cap(self, [_strip(l) for l in hist])
         mo = self.run_model(driver, plain, timeout=240)
         if mo is None:
             return None
@@ -206,6 +222,16 @@ def run(ctx):
     mark("lean build + axiom audit (shared lock)")
     ctx.harness("./cmd/c15", overlay={"taskqueue/verif_incap.go": "c15_incap.go"})
     mark("go build")
+    if ctx.extra.get("overlay_fallback") and "harness" in ctx.harness_bin:
+        # black-box build: no injected `in` capacity; measure the real one (2*NumCPU in New) and use it for every queue
+        ans = (ctx.run_impl("forced", ["cap"], timeout=60) or ["?"])[0]
+        if ans.startswith("cap=") and ans[4:].isdigit() and int(ans[4:]) >= 1:
+            ctx.extra["forced_in_capacity_measured"] = int(ans[4:])
+            ctx.modelled.append("overlay fallback: forced schedules ran with the real `in` capacity (%s, measured from outside) "
+                                "instead of 1..5; blocking Submit is then reached only by the long one-worker histories" % ans[4:])
+        else:
+            ctx.extra["skipped_areas"] = ["forced"]
+            ctx.modelled.append("overlay fallback: the `in` capacity could not be measured (%s); area forced skipped" % ans[:80])
     _install(ctx)
     what = ("forced schedule: each line is followed by a wait for quiescence; outputs are the observed sets (st=started, "
             "fin=finished, rec=recovery-handler calls, sub=Submit calls returned, sd=Shutdown 0 not called/1 waiting/2 "
@@ -214,11 +240,13 @@ def run(ctx):
            "panic_reported_once / shutdown_after_all_done / shutdown_returns (Props/C15.lean) hold for every reachable "
            "state of the threaded model; on this forced schedule the real queue does not reach the quiescent state "
            "(for one worker: including the start and finish order) that the model predicts")
-    ctx.diff(area="forced", driver="drv_c15", n={"quick": 6000, "thorough": 200000}, stateful=True,
-             trivial=_trivial, tagger=_tag, timeout=1500, theorem=thm, what=what)
+    skip_forced = "forced" in ctx.extra.get("skipped_areas", [])
+    if not skip_forced:
+        ctx.diff(area="forced", driver="drv_c15", n={"quick": 6000, "thorough": 200000}, stateful=True,
+                 trivial=_trivial, tagger=_tag, timeout=1500, theorem=thm, what=what)
     mark("forced")
     # the same stream on a single P (cooperative scheduling: different interleavings of dispatcher, workers, submitter)
-    if not ctx.replay and not ctx.violations:
+    if not ctx.replay and not ctx.violations and not skip_forced:
         ctx.seed += 7777
         ctx.diff(area="forced", driver="drv_c15", n={"quick": 2000, "thorough": 60000}, stateful=True,
                  trivial=_trivial, tagger=lambda l, o: "gomaxprocs1:" + _tag(l, o), timeout=1500, theorem=thm,
